@@ -19,6 +19,12 @@ replay: (a) every behaviour is realised as a real equation block (harness/solver
         SolveStep(1..MaxTime)) with TraceStep = k; user-function systems are observed with a counting
         wrapper instead.  SolveEquation() itself is run as well and must give the same series.
 trace:  one Step event per period + Finish, judged by TLC with spec/Solver_Trace.tla (FOCUS = C02).
+suite:  thorough tier only - the repository's own test suite is run in a subprocess under
+        harness/pytest_harvest.py (SolveEquation wrapped at run time, no repository file touched); every
+        solve that returns normally inside a test becomes a Step/Finish trace (sweeps unobserved) and is
+        judged with the same clauses; the Lipschitz bound of the residual clause is estimated numerically
+        at the solution (sup-norm row sums of the iterated map, doubled); rows calling a user function
+        that cannot be re-evaluated are skipped and listed.
 
 Property clauses (only these can raise a violation):
   C02_DivergedNotSolved   no period whose error measure was NaN or whose iterate is not finite is
@@ -62,7 +68,35 @@ def run(rep):
     observed, verdicts = sk.judge_cases(rep, core, 'C02', items, nontrivial)
     rep.extra['returned_normally'] = sum(1 for ev in observed if ev[-1]['returned'])
     rep.extra['user_function_systems'] = sum(1 for it in items if it['case']['funcs'])
+    if rep.tier == 'thorough':
+        harvest_part(rep)
+
+
+def harvest_part(rep):
+    """code -> spec on the repository's own test suite (thorough tier only): every SolveEquation() that
+    returns normally inside a test of the tree under test is harvested by harness/pytest_harvest.py and
+    judged with the clauses that hold for ANY equation block."""
+    records, wall, tail = sk.run_suite_harvest(core)
+    rep.extra['harvest_wall_s'] = round(wall, 2)
+    rep.extra['harvest_pytest_summary'] = tail
+    rep.extra['harvest_clauses'] = ('evaluated: C02_DivergedNotSolved/C02_Finite, C02_Residual (simultaneous rows, Lipschitz '
+                                    'bound = 2 x numeric sup-norm row sum at the solution), C02_DecorativeExact, C02_LaggedExact, '
+                                    'C02_ExogenousExact, lengths = horizon + 1 (conformance); not observable on harvested solves: '
+                                    'sweeps, error measure, prefix')
+    sk.judge_harvest(rep, core, records)
 
 
 def replay(path):
+    import json
+    with open(path) as f:
+        data = json.load(f)
+    if 'harvested' in data['case']:
+        rep = core.Report(PROP, 'quick', 0)
+        verdicts = sk.judge_harvest(rep, core, [data['case']['harvested']])
+        for v in rep.violations:
+            print('VIOLATION property=%s replay=%s' % (PROP, path))
+            print('  clause=%s signature=%s %s' % (v.clause, v.signature, v.detail))
+            return 1
+        print('replay: property clause holds on this harvested solve now (verdict %s)' % verdicts[0])
+        return 0
     return sk.replay_case(core, PROP, 'C02', path)
